@@ -212,6 +212,41 @@ def empty(ad):
     return not ad['changed'] and not ad['deleted']
 
 
+def overlapping_names_probe(ctx):
+    """field names that contain one another (author / author_name, code / zipcode) next to unique_together and
+    index_together entries: deleting or renaming ONE of them leaves the entries that name the OTHER alone, so the
+    hinted evolution still closes the difference"""
+    def fld(name, t, **attrs):
+        return {'name': name, 'type': t, 'attrs': attrs, 'related': None}
+
+    def book(names, ut, it):
+        return {'apps': [{'id': 'vapp', 'models': [
+            {'name': 'Book', 'table': 'vapp_book', 'unique_together': ut, 'index_together': it, 'indexes': [],
+             'constraints': [], 'fields': [fld('id', 'AutoField', primary_key=True)] +
+             [fld(n, 'CharField', max_length=20, null=True) for n in names]}]}]}
+    ut, it = [['author', 'title']], [['code', 'title']]
+    cases = [('delete author_name', book(['title', 'author', 'author_name', 'code', 'zipcode'], ut, it),
+              book(['title', 'author', 'code', 'zipcode'], ut, it)),
+             ('delete zipcode', book(['title', 'author', 'author_name', 'code', 'zipcode'], ut, it),
+              book(['title', 'author', 'author_name', 'code'], ut, it)),
+             ('delete author (a member)', book(['title', 'author', 'author_name', 'code'], ut, it),
+              book(['title', 'author_name', 'code'], [], it))]
+    for what, s0, s1 in cases:
+        old, new = sigs.sig_from_spec(s0), sigs.sig_from_spec(s1)
+        evorig.install_models(s1)
+        d, hint, after, cur = real_closure(old, new)
+        rep = {'scenario': 'overlapping field names: ' + what, 'spec_old': s0, 'observed': after,
+               'hint': [str(m) for ms in hint.values() for m in ms]}
+        ctx.count('overlapping_names_probe')
+        ctx.case({'scenario': rep['scenario'], 'hint': rep['hint']}, nontrivial=True, sample_cap=3)
+        if 'sim_error' in after:
+            ctx.fail(None, '%s: the hinted evolution is rejected by the simulation: %s' % (what, after['sim_error']), rep)
+        elif not (empty(after['residual']) and empty(after['residual_rev'])):
+            ctx.fail(None, '%s: the hinted evolution leaves a residual difference' % what, rep)
+        elif not after['eq']:
+            ctx.fail(None, '%s: the evolved signature is not equal to the target' % what, rep)
+
+
 def expression_index_probe(ctx):
     """signatures whose Meta.indexes hold expression-only indexes (no fields), index objects with every optional part,
     and constraints with conditions: empty difference with itself and with its clone (both directions, `==` too),
@@ -294,6 +329,7 @@ def run(ctx):
     evorig.setup()
     quick = ctx.tier == 'quick'
     expression_index_probe(ctx)
+    overlapping_names_probe(ctx)
     n = 1500 if quick else 20000
     ctx.rule = ('signature pairs (old, new): new is old evolved by 0-4 valid mutations (add/change/delete field, '
                 'ChangeMeta, DeleteModel) plus direct edits (re-targeted relation, default stated explicitly, '
